@@ -185,22 +185,27 @@ func (s *Set) Complement(endSymbol rune) *Set {
 		pre = a.End + 1
 	}
 	a = a.Forward
+	// covered is set once an interval reaches endSymbol: nothing is left above it.
+	covered := false
 	for a.Forward != nil {
-		node := Node{
-			Backward: b,
-			Begin:    pre,
-			End:      a.Begin - 1,
+		// Adjacent intervals leave no gap between them.
+		if pre < a.Begin {
+			node := Node{
+				Backward: b,
+				Begin:    pre,
+				End:      a.Begin - 1,
+			}
+			b.Forward = &node
+			b = b.Forward
 		}
-		if a.End == endSymbol {
-			pre = endSymbol
+		if a.End >= endSymbol {
+			covered = true
 		} else {
 			pre = a.End + 1
 		}
-		b.Forward = &node
 		a = a.Forward
-		b = b.Forward
 	}
-	if pre < endSymbol {
+	if !covered && pre <= endSymbol {
 		node := Node{
 			Backward: b,
 			Begin:    pre,
@@ -208,6 +213,10 @@ func (s *Set) Complement(endSymbol rune) *Set {
 		}
 		b.Forward = &node
 		b = b.Forward
+	}
+	if b == &set.Head {
+		// Nothing of [0, endSymbol] lies outside s; the empty set has no list.
+		return set
 	}
 	b.Forward = &set.Tail
 	set.Tail.Backward = b
